@@ -944,7 +944,10 @@ def steps_forth(case, pick):
     bits = pick([32, 64])
     steps = [dict(base, source=src, bits=bits, schedule=["run"], rerun_decompiled=1),
              dict(base, source=src, bits=96 - bits, schedule=["stepall"], out_initial=1, out_resize_num=11, out_resize_den=10),
-             dict(base, source=paused, bits=bits, schedule=["runall"], out_initial=2)]
+             dict(base, source=paused, bits=bits, schedule=["runall"], out_initial=2),
+             # a second run on the SAME machine (run() begins afresh: the outcome is a function of source and input alone,
+             # whatever the first run left behind -- loop frames of a run that failed inside a do-loop, stack, variables)
+             dict(base, source=src, bits=bits, schedule=["run", "run"])]
     return steps
 
 
@@ -961,7 +964,7 @@ def judge_forth(case, res):
     if not res:
         return "no result"
     exp = case["exp"]
-    names = ["run", "begin+step*", "pause+resume*", "decompiled"]
+    names = ["run", "begin+step*", "pause+resume*", "run twice on one machine", "decompiled"]
     res = list(res)
     if res and res[0].get("ok") == 1 and "dec" in res[0]:
         d = res[0]["dec"]
